@@ -46,6 +46,21 @@ structure Feat where
   hasSetState : Bool := false         -- hasattr(value, "set_state")
   deriving DecidableEq, Repr, Inhabited
 
+/-- the relations between the facts that hold for EVERY Python object (subclass and attribute facts of
+CPython / NumPy / torch): `bool` is a subclass of `int`; `"torch" in str(value.__module__)` presupposes the
+attribute; ndarrays, tensors and NumPy complex scalars have `dtype` and `item`; an `Optimizer` has `step`;
+the pathlib classes implement `__fspath__`; `None` is no `int` / `float` / `str`.  The `dispatch` stream
+checks on every run that the facts measured on every real object satisfy it. -/
+def Consistent (f : Feat) : Bool :=
+  (!f.isBool || f.isInt) &&
+  (!f.moduleMentionsTorch || f.hasModuleAttr) &&
+  (!f.isNdarray || (f.hasDtype && f.hasItem)) &&
+  (!f.isTensor || (f.hasDtype && f.hasItem)) &&
+  (!f.isNpComplex || (f.hasDtype && f.hasItem)) &&
+  (!f.isOptimizer || f.hasStep) &&
+  (!f.typeStrPathlib || f.hasFspath) &&
+  (!f.isNone || (!f.isInt && !f.isFloat && !f.isStr && !f.isBool))
+
 /-- the branches of the chain, in the code's order -/
 inductive Branch where
   | tensor | optimizer | scheduler | torchLogger | pyLogger | module | ndarray | scalar | npScalar
